@@ -9,6 +9,9 @@ CLASSES = [frozenset([0]), DIGITS, frozenset([47]), frozenset(range(1, 47)), fro
 LENS = [1, 2, 3, 4, 5, 100, 101, 102]     # 1..5: every byte value at every position; >= 100: digit tail (length rule only)
 
 
+from rules import libtab
+
+
 class DocmdHooks(QHooks):
     tracked = frozenset(['G:messid', 'G:flagabort', 'G:delnum', 'G:auto_spawn', 'G:auto_uidq', 'G:d'])
     precise = frozenset(['L:i'])
@@ -184,7 +187,7 @@ def docmd_explore(db, rep):
 
 
 
-class GetcmdHooks(QHooks):
+class GetcmdHooks(libtab.SAConc, QHooks):
     """getcmd() over a scripted command stream, with one allocation failure at any append: which commands reach docmd()"""
     SCRIPT = [3, ord('m'), 0, ord('s'), 0, ord('r'), 0, 4, ord('n'), 0, 0, ord('q'), 0, 9, ord('x')]      # two commands and the start of a third
 
@@ -208,7 +211,8 @@ class GetcmdHooks(QHooks):
 
     def prim_stralloc_append(self, E, x, args):
         k = self.g1(E, '$napp', 0)
-        outs = [Outcome(ret=fs(1), sets={'$napp': fs(k + 1)})]
+        ok = libtab.SAConc.prim_stralloc_append(self, E, x, args)[0]
+        outs = [Outcome(ret=fs(1), sets=dict(ok.sets or {}, **{'$napp': fs(k + 1)}))]
         if self.g1(E, '$failed') is None:
             outs.append(Outcome(ret=fs(0), sets={'$napp': fs(k + 1), '$failed': fs(k)}, log='allocation fails at append number %d' % k))
         return outs
@@ -220,7 +224,8 @@ class GetcmdHooks(QHooks):
 
     def prim_docmd(self, E, x, args):
         cmds = tuple(self.g1(E, '$cmds', ()))
-        return [Outcome(ret=TOP, sets={'$cmds': fs(cmds + ((self.g1(E, 'G:delnum'), self.g1(E, 'G:flagabort', 0)),))})]
+        fields = tuple(self.sa_bytes(E, 'G:' + n) for n in ('messid', 'sender', 'recip'))
+        return [Outcome(ret=TOP, sets={'$cmds': fs(cmds + ((self.g1(E, 'G:delnum'), self.g1(E, 'G:flagabort', 0), fields),))})]
 
     def prim___errno_location(self, E, x, args):
         return [Outcome(ret=fs(('&', '$errno')))]
@@ -248,7 +253,16 @@ def getcmd_sites(db, rep):
         if failed is not None and not bad:
             # the command during which the allocation failed must be answered as aborted, the other one normally
             pass
-    return {'getcmd:framing-does-not-depend-on-the-allocator': (bad is None, 'spawn.c:getcmd', bad[0] if bad else '%d allocation scenarios' % len(H.ends), bad[1] if bad else [])}
+    # with no allocation failure: the fields of a command arrive in the order qmail-send writes them (delivery number, message, sender, recipient)
+    bado = None
+    for failed, cmds, stage, tr in H.ends:
+        if failed is None:
+            got = [(c[0], c[2]) for c in cmds]
+            want = [(3, (b'm\0', b's\0', b'r\0')), (4, (b'n\0', b'\0', b'q\0'))]
+            if got != want:
+                bado = ('the command stream 3 "m" "s" "r" / 4 "n" "" "q" reaches docmd() as %s (delivery number, (message, sender, recipient)); documented %s' % (got, want), tr)
+    return {'getcmd:framing-does-not-depend-on-the-allocator': (bad is None, 'spawn.c:getcmd', bad[0] if bad else '%d allocation scenarios' % len(H.ends), bad[1] if bad else []),
+            'getcmd-stage-order': (bado is None, 'spawn.c:getcmd', bado[0] if bado else 'fields in comm_write order', bado[1] if bado else [])}
 
 
 
@@ -266,26 +280,6 @@ def run(ctx):
 
     if (H.slots < 4 or H.spawns < 1) and all(v[0] for v in H.sites.values()):
         raise AnalysisBroken('spawn.c docmd: slot accesses / spawn() not explored (%d / %d)' % (H.slots, H.spawns))
-    # getcmd: stage order delnum, messid, sender, recip = comm_write order
-    getcmd = prog.fn('getcmd', 'spawn.c')
-    order = []
-    for bid in getcmd.order():
-        lab = getcmd.blocks[bid].label
-        if lab and lab.get('k') == 'case':
-            tgt = None
-            for xx in getcmd.blocks[bid].tops():
-                for y in xx.walk():
-                    if y.k == 'call' and y.callee == 'stralloc_append':
-                        tgt = y.args[0].strip().args[0].path()
-                    if y.k == 'asg' and y.args[0].path() == 'G:delnum':
-                        tgt = 'G:delnum'
-                if tgt:
-                    break
-            order.append((lab['lo'], tgt))
-    order.sort()
-    r3.check([t for _, t in order] == ['G:delnum', 'G:messid', 'G:sender', 'G:recip'], 'getcmd-stage-order', 'spawn.c:getcmd',
-             'stage machine consumes %s' % order)
-
     # ---------- 4. qmail-send del_dochan
     ps = db.program('qmail-send')
     dd = ps.fn('del_dochan', 'qmail-send.c')
